@@ -212,7 +212,7 @@ fn alphabet(patterns: &[&str], ascii: bool) -> Vec<char> {
     // weight the pattern's own letters, then add extras
     let mut out = a.clone();
     out.extend(a.iter());
-    out.extend(['a', 'b', 'c', ' ', '1', '\n']);
+    out.extend(['a', 'b', 'c', ' ', '1', '\n', 'A', 'B']);
     if !ascii {
         out.extend(['é', 'ß', '𝒳', '\u{2028}', 'K', '\u{212A}']);
     }
@@ -310,7 +310,7 @@ pub fn gen_world(base: u64, run: u64, profile: Profile) -> World {
         Profile::C19 => [1, 1, 2, 2, 3, 4][wl.usize_below(6)],
         Profile::C09 => [1, 1, 2, 3][wl.usize_below(4)],
     };
-    let mut regexes = Vec::new();
+    let mut regexes: Vec<RegexSpec> = Vec::new();
     for _ in 0..nre {
         let input = if wl.chance(ascii_pct, 100) { InputKind::Ascii } else { InputKind::Utf8 };
         let exec = if wl.chance(pike_pct, 100) { ExecKind::Pike } else { ExecKind::Backtrack };
@@ -331,6 +331,22 @@ pub fn gen_world(base: u64, run: u64, profile: Profile) -> World {
             };
             (f, p)
         };
+        // sibling variants: the same pattern under other flags / another executor. Two objects
+        // that differ only in mode are the bait for process-global or per-thread state that
+        // is keyed too coarsely (by pattern text, by code point, by program shape).
+        if !regexes.is_empty() && wl.chance(1, 3) {
+            let src: RegexSpec = regexes[wl.usize_below(regexes.len())].clone();
+            let mut f: Vec<char> = src.flags.chars().collect();
+            let toggle = ['i', 'u', 'm', 's', 'u', 'i'][wl.usize_below(6)];
+            if let Some(p) = f.iter().position(|c| *c == toggle) {
+                f.remove(p);
+            } else if !(toggle == 'u' && f.contains(&'v')) {
+                f.push(toggle);
+            }
+            let exec2 = if wl.chance(1, 4) { if src.exec == ExecKind::Pike { ExecKind::Backtrack } else { ExecKind::Pike } } else { src.exec };
+            regexes.push(RegexSpec { pattern: src.pattern, flags: f.into_iter().collect(), exec: exec2, input: src.input });
+            continue;
+        }
         regexes.push(RegexSpec { pattern, flags, exec, input });
     }
     let any_ascii = regexes.iter().any(|r| r.input == InputKind::Ascii);
@@ -513,6 +529,7 @@ pub fn gen_world(base: u64, run: u64, profile: Profile) -> World {
         threads.push(ops);
     }
 
-    let knobs = Knobs { fuel, strategy, sched_seed: sc.next_u64() >> 1, max_switches: 400 };
+    let pristine = kn.chance(1, 24);
+    let knobs = Knobs { fuel, strategy, sched_seed: sc.next_u64() >> 1, max_switches: 400, pristine };
     World { regexes, hays, threads, knobs }
 }
